@@ -40,6 +40,7 @@ struct Th {
   std::thread th;
   sem_t sem;
   bool started = false, finished = false, spinning = false;
+  bool skip_decision = false;  // the decision that started this thread already selected its first step
   int mutex_wait = 0;  // blocked on a mutex
   const void* waiting_mutex = nullptr;
   int ro = 0;  // consecutive non-modifying atomic ops
@@ -181,6 +182,7 @@ void sched_point() {
   G_.th[me]->steps++;
   if (G_.solo == me) { if (++G_.solo_used > G_.solo_budget) { set_status(S_SOLO, "solo thread T" + std::to_string(me) + " did not finish within " + std::to_string(G_.solo_budget) + " steps"); abort_execution(); } }
   if (G_.steps > G_.cfg.max_steps) { set_status(S_STEPLIMIT, "execution exceeded step limit"); abort_execution(); }
+  if (G_.th[me]->skip_decision) { G_.th[me]->skip_decision = false; return; }
   uint32_t en = enabled_mask();
   if (en == 0) deadlock();
   int next = choose_next(me, en);
@@ -232,6 +234,7 @@ void trampoline(int tid) {
   tl_tid = tid;
   while (sem_wait(&G_.th[tid]->sem) != 0) {}
   G_.th[tid]->started = true;
+  G_.th[tid]->skip_decision = true;
   try {
     G_.th[tid]->body();
   } catch (const std::exception& e) {
@@ -657,6 +660,14 @@ void event(const std::string& line) {
   RtGuard rg;
   Rec r; r.tid = tl_tid; r.kind = K_EV; r.mo = r.mo2 = 0; r.size = 0; r.addr = 0; r.v1 = r.v2 = 0; r.text = line;
   G_.trace.push_back(std::move(r));
+}
+void yield_point() {
+  G& G_ = gg();
+  if (!G_.active || tl_tid <= 0 || !G_.running) return;
+  sched_point();
+  record(K_YIELD, 0, 0, 0, 0, 0, 0);
+  // a START is progress
+  G_.th[tl_tid]->ro = 0; G_.th[tl_tid]->watch.clear();
 }
 int self() { return tl_tid; }
 uint64_t choose(uint64_t n) {
